@@ -101,6 +101,11 @@ def instantiate(t):
                 return call(A('z'))
             if k == 's':
                 return call(F('m', V('V1')))
+            if k == 'q':
+                # a TEST on the variable P of the goal m(P) that the context puts in front of the
+                # body: succeeds for P = 1, fails for P = 2 - its outcome differs between the entries
+                # of the construct it is part of
+                return call(F('o', V('P')))
             return call(F(k, V('V%d' % i)))
         if t[0] == '\\+':
             return ('\\+', go(t[1]))
